@@ -1,4 +1,5 @@
 import PppModel.Lemmas.Builder
+import PppModel.Lemmas.BuilderExact
 
 /-!
 # C09 — builder length field is never stale, truncated or silently wrong
@@ -140,5 +141,162 @@ example : (Builder.new 0x21 0x11).run [.writePayload (.int 1 7), .setLength (som
   decide
 
 example : lengthInForce [.setLength (some 3), .writePayload (.int 1 7), .setLength none] = none := by decide
+
+/-! ### Per-call failure (audit 3, X3 / C09 (a)): which call returns `Err`
+
+`Builder.run` merges "a write returned `Err`" and "`build` returned `Err`". The
+theorems below are about `Builder.step` (one call) and `Builder.build` separately,
+on the state `b` reached by any accepted prefix `pre` of calls. -/
+
+/-- `write_to` of an oversized value fails (on any writer). -/
+theorem writeTo_oversized (p : Payload) (hbig : oversized p) (w : Writer) : p.writeTo w = .error w :=
+  writeTo_refused p w (enc_none_of_oversized p hbig)
+
+theorem writeMany_oversized (ps : List Payload) (p : Payload) (hp : p ∈ ps) (hbig : oversized p)
+    (w : Writer) : writeMany w ps = none := by
+  induction ps generalizing w with
+  | nil => cases hp
+  | cons q qs ih =>
+    simp only [writeMany]
+    rcases List.mem_cons.mp hp with rfl | hq
+    · rw [writeTo_oversized p hbig w]
+    · cases hw : q.writeTo w with
+      | error e => rfl
+      | ok r => exact ih hq r.2
+
+/-- The offending call fails in *every* builder state (reachable or not): a
+`write_payload` of an oversized value, a `write_payloads` batch containing one,
+a `write_tlv` with an oversized value. -/
+theorem oversized_step_fails (b : Builder) (p : Payload) (hbig : oversized p) :
+    b.step (.writePayload p) = none ∧ (∀ ps, p ∈ ps → b.step (.writePayloads ps) = none) := by
+  constructor
+  · simp only [Builder.step]
+    cases b.writeHeader with
+    | none => rfl
+    | some b' => simp only [Builder.writeInternal, writeTo_oversized p hbig]
+  · intro ps hp
+    simp only [Builder.step]
+    cases b.writeHeader with
+    | none => rfl
+    | some b' => simp only [writeMany_oversized ps p hp hbig]
+
+/-- **C09 (the operation fails).** After any accepted history `pre` from either
+constructor, a `write_payload` of a TLV value / (type, bytes) pair / byte slice of
+more than 65535 bytes *itself* returns `Err`, and so does a `write_payloads`
+batch containing one. (Nothing is written: `C20.oversize_refused`.) -/
+theorem oversized_call_fails {vc afp : UInt8} {t : Transport} {a : Addresses} {b0 b : Builder}
+    (_h0 : b0 = Builder.new vc afp ∨ b0 = Builder.withAddresses vc t a)
+    (pre : List Op) (_hr : Builder.runFrom b0 pre = some b) (p : Payload) (hbig : oversized p) :
+    b.step (.writePayload p) = none ∧ (∀ ps, p ∈ ps → b.step (.writePayloads ps) = none) :=
+  oversized_step_fails b p hbig
+
+/-- The same for `write_tlv`. -/
+theorem oversized_tlv_call_fails (b : Builder) (k : UInt8) (v : B) (hbig : 65535 < v.length) :
+    b.step (.writeTlv k v) = none :=
+  (oversized_step_fails b (.tlv k v) hbig).1
+
+/-- **Exact per-call success condition** (re-export of `V2.step_isSome_iff` /
+`V2.runFrom_isSome_iff`): on the state reached by an accepted prefix `pre`, a
+call returns `Err` iff the arithmetic guard `opOk` fails at the current buffer
+length (16 fixed bytes, the address block, the payload written by `pre`). -/
+theorem call_fails_iff_shape {b0 b : Builder} {vc afp : UInt8} {addr : Addresses}
+    (h : Shape b0 vc afp addr none []) (pre : List Op) (hr : Builder.runFrom b0 pre = some b) (op : Op) :
+    b.step op = none ↔ ¬ opOk (16 + (Spec.V2.addrBytes addr).length + payloadLen pre) op := by
+  obtain ⟨e, he, hsh⟩ := runFrom_shape h pre b hr
+  have := step_isSome_iff hsh op
+  simp only [List.nil_append, ← payloadLen_of_body he] at this
+  rw [← this]
+  cases b.step op <;> simp
+
+theorem call_fails_iff (vc afp : UInt8) (pre : List Op) {b : Builder}
+    (hr : Builder.runFrom (Builder.new vc afp) pre = some b) (op : Op) :
+    b.step op = none ↔ ¬ opOk (16 + payloadLen pre) op := by
+  simpa [Spec.V2.addrBytes] using call_fails_iff_shape (shape_new vc afp) pre hr op
+
+theorem call_fails_iff_with (vc : UInt8) (t : Transport) (a : Addresses) (pre : List Op) {b : Builder}
+    (hr : Builder.runFrom (Builder.withAddresses vc t a) pre = some b) (op : Op) :
+    b.step op = none ↔ ¬ opOk (16 + (Spec.V2.addrBytes a).length + payloadLen pre) op :=
+  call_fails_iff_shape (shape_withAddresses vc t a) pre hr op
+
+theorem overflow_fails_direct_shape {b : Builder} {vc afp : UInt8} {addr : Addresses}
+    (h : Shape b vc afp addr none []) (ops : List Op) (hno : lengthInForce ops = none)
+    (e : B) (he : body ops = some e) (hbig : 65535 < (Spec.V2.addrBytes addr).length + e.length) :
+    b.run ops = none := by
+  rw [run_none_iff h ops, payloadLen_of_body he]
+  exact .inr ⟨hno, hbig⟩
+
+/-- **C09 (direct form).** With no explicit length in force, a history whose
+payload bytes (the specified encodings of everything written) exceed 65535 fails
+instead of emitting a wrapped length. -/
+theorem overflow_fails_direct (vc afp : UInt8) (ops : List Op) (hno : lengthInForce ops = none)
+    (e : B) (he : body ops = some e) (hbig : 65535 < e.length) : (Builder.new vc afp).run ops = none :=
+  overflow_fails_direct_shape (shape_new vc afp) ops hno e he (by simpa [Spec.V2.addrBytes] using hbig)
+
+theorem overflow_fails_direct_with (vc : UInt8) (t : Transport) (a : Addresses) (ops : List Op)
+    (hno : lengthInForce ops = none) (e : B) (he : body ops = some e)
+    (hbig : 65535 < (Spec.V2.addrBytes a).length + e.length) :
+    (Builder.withAddresses vc t a).run ops = none :=
+  overflow_fails_direct_shape (shape_withAddresses vc t a) ops hno e he hbig
+
+theorem build_only_failure_shape {b0 b : Builder} {vc afp : UInt8} {addr : Addresses}
+    (h : Shape b0 vc afp addr none []) (ops : List Op) (hr : Builder.runFrom b0 ops = some b) :
+    (lengthInForce ops = none →
+      (b.build = none ↔ 65535 < (Spec.V2.addrBytes addr).length + payloadLen ops)) ∧
+    (∀ l, lengthInForce ops = some l → b.build ≠ none) := by
+  obtain ⟨e, he, hsh⟩ := runFrom_shape h ops b hr
+  rw [build_shape hsh, payloadLen_of_body he]
+  simp only [List.nil_append]
+  constructor
+  · intro hno
+    have hno' : lengthFrom none ops = none := hno
+    simp only [buildOf, hno']
+    split
+    · simp only [reduceCtorEq, false_iff]; omega
+    · simp only [true_iff]; omega
+  · intro l hl
+    have hl' : lengthFrom none ops = some l := hl
+    simp only [buildOf, hl', ne_eq, reduceCtorEq, not_false_eq_true]
+
+/-- **C09 (`build` is the call that fails).** When every call of a history was
+accepted (state `b` reached) and no explicit length is in force, `build` itself
+returns `Err` exactly when the payload bytes exceed 65535; with an explicit
+length in force `build` never fails. -/
+theorem build_only_failure (vc afp : UInt8) (ops : List Op) {b : Builder}
+    (hr : Builder.runFrom (Builder.new vc afp) ops = some b) :
+    (lengthInForce ops = none → (b.build = none ↔ 65535 < payloadLen ops)) ∧
+    (∀ l, lengthInForce ops = some l → b.build ≠ none) := by
+  simpa [Spec.V2.addrBytes] using build_only_failure_shape (shape_new vc afp) ops hr
+
+theorem build_only_failure_with (vc : UInt8) (t : Transport) (a : Addresses) (ops : List Op) {b : Builder}
+    (hr : Builder.runFrom (Builder.withAddresses vc t a) ops = some b) :
+    (lengthInForce ops = none →
+      (b.build = none ↔ 65535 < (Spec.V2.addrBytes a).length + payloadLen ops)) ∧
+    (∀ l, lengthInForce ops = some l → b.build ≠ none) :=
+  build_only_failure_shape (shape_withAddresses vc t a) ops hr
+
+/-- Non-vacuity of `oversized_call_fails`: a 65536-byte slice is oversized, and an
+accepted prefix exists. -/
+example : oversized (.slice (List.replicate 65536 0)) := by
+  simp only [oversized, List.length_replicate]; omega
+
+example : ∃ b, Builder.runFrom (Builder.new 0x21 0x11) [.writePayload (.int 1 7)] = some b := ⟨_, rfl⟩
+
+/-- Non-vacuity of `build_only_failure` / `overflow_fails_direct`: the two accepted
+writes of `V2.crossing` (65535 bytes, then one more) reach a state, carry no
+explicit length, and total 65536 payload bytes. -/
+example : (∃ b, Builder.runFrom (Builder.new 0x21 0x11) (crossing.take 2) = some b) ∧
+    lengthInForce (crossing.take 2) = none ∧ payloadLen (crossing.take 2) = 65536 := by
+  refine ⟨(runFrom_isSome_iff (shape_new 0x21 0x11) _).mpr ?_, rfl, ?_⟩
+  · simp only [crossing, List.take, opsOk, opOk, opLen, okAt_slice_iff, encLen_slice,
+      List.length_replicate, List.length_cons, List.length_nil, Spec.V2.addrBytes]
+    decide
+  · simp only [crossing, List.take, payloadLen, List.map_cons, List.map_nil, opLen, encLen_slice,
+      List.length_replicate, List.length_cons, List.length_nil, List.sum_cons, List.sum_nil]
+    decide
+
+example (bs : B) (h : bs.length = 65535) :
+    body [.writePayload (.slice bs), .writePayload (.slice [0])] = some (bs ++ [0]) ∧
+    65535 < (bs ++ [0]).length := by
+  simp [Spec.Builder.body, opPayloads, encAll, enc, h]
 
 end C09
